@@ -97,6 +97,15 @@ def cases(rng, tier, shard, nshards):
     for _ in range(1 if tier == 'quick' else 4):
         yield {'points': gen.long_spiky(rng), 'family': 'long-spiky', 'layout': 'C', 'distance': pick(rng, DISTANCES),
                'order': pick(rng, ORDERS), 'kmax': int(rng.integers(8, 16))}
+    if shard == 0:
+        # one curve longer than 65 536 points (blocked evaluation over very long segments), first members of the chain only;
+        # the decisive features sit in the last third of the curve
+        n = int(rng.integers(70000, 110000))
+        x = np.arange(n, dtype=float)
+        c = int(rng.integers(int(0.8 * n), n - 100))
+        y = np.where(np.arange(n) < c, 1000.0 - 0.001 * x, 1000.0 - 0.001 * c - 0.05 * (x - c)) + 50.0
+        yield {'points': np.ascontiguousarray(np.column_stack((x, np.round(y, 4)))), 'family': 'very-long-late-knee', 'layout': 'C',
+               'distance': pick(rng, DISTANCES), 'order': pick(rng, ORDERS), 'kmax': 5}
     for i in range(shard_count(total, shard, nshards)):
         r = rng.random()
         if tier == 'thorough' and r < 0.004:
